@@ -72,6 +72,14 @@ def q_R16b(u, prog):
                 okd = okd and bool(sets)
         rec.expect(okd, 'R16.b', key + ':dispatch', loc, 'a re-entered startup task (reserved[0] != 0) must set restore_context and jump to restore_context_0 before the loop nest',
                    note='%s: re-entry dispatches to the resume chain' % cname)
+        # reserved[0] is both the batch size and the "already started" flag: it must never become 0 once the
+        # enumeration has started (a 0 at re-entry restarts the whole space: every instance generated so far is duplicated)
+        flag = [s_ for s_ in f.events() if s_.kind == 'store' and s_.lhs.s == 'this_task->locals.reserved[0].value']
+        okf = bool(flag) and all((s_.op == '=' and s_.rhs is not None and s_.rhs.cv is not None and s_.rhs.cv >= 1) or (s_.op == '<<=' and s_.rhs is not None and s_.rhs.cv is not None and 0 <= s_.rhs.cv < 31)
+                                 for s_ in flag)
+        rec.expect(okf, 'R16.b', key + ':resume-flag-nonzero', loc,
+                   'reserved[0] (batch size and "already started" flag) may only be set to a positive constant or doubled: any other update can leave it 0 when AGAIN is returned, and the next entry restarts the enumeration from the beginning (found %s)'
+                   % [(s_.op, s_.rhs.s if s_.rhs is not None else '') for s_ in flag], note='%s: resume flag stays non-zero' % cname)
         # chain: label k is followed by  if(restore_context) goto restore_context_{k+1}
         for k in sorted(labels)[:-1]:
             gk = [n for n in order if f.nodes[n]['k'] == 'goto' and f.nodes[n].get('n') == 'restore_context_%d' % (k + 1) and pos[labels[k]] < pos[n] < pos[labels[k + 1]]]
